@@ -8,6 +8,7 @@ EXTENDS Eval
 KeyVal(r, n, col) == IF col = "size + 1" THEN IntV(r.snapshot[n].sizen + 1)
                      ELSE IF col = "-size" THEN IntV(0 - r.snapshot[n].sizen)                    \* (a key with a leading minus)
                      ELSE IF col = "-length(name)" THEN IntV(0 - Len(NameC(r.world, n)))               \* (a negated function call)
+                     ELSE IF col = "concat(size, name)" THEN TextV(DigitsOfNat(r.snapshot[n].sizen) \o NameC(r.world, n))   \* (a text made from a number)
                      ELSE IF col = "size - 100" THEN IntV(r.snapshot[n].sizen - 100)          \* (negative key values)
                      ELSE IF col = "2 * size" THEN IntV(2 * r.snapshot[n].sizen)               \* (a key that starts with a number is not a position)
                      ELSE IF col = "length(name) * 4" THEN IntV(Len(NameC(r.world, n)) * 4)      \* arithmetic over a numeric function of a text column
